@@ -202,6 +202,12 @@ def bottleneck_matching(dgm1, dgm2, matching, labels=["dgm1", "dgm2"], ax=None):
     cp = np.cos(np.pi / 4)
     sp = np.sin(np.pi / 4)
     R = np.array([[cp, -sp], [sp, cp]])
+    # The matching indexes the points with finite death only: bottleneck() and
+    # wasserstein() drop the others before matching, wherever they sit.
+    if dgm1.size > 0:
+        dgm1 = dgm1[np.isfinite(dgm1[:, 1])]
+    if dgm2.size > 0:
+        dgm2 = dgm2[np.isfinite(dgm2[:, 1])]
     if dgm1.size == 0:
         dgm1 = np.array([[0, 0]])
     if dgm2.size == 0:
@@ -264,6 +270,12 @@ def wasserstein_matching(dgm1, dgm2, matching, labels=["dgm1", "dgm2"], ax=None)
     cp = np.cos(np.pi / 4)
     sp = np.sin(np.pi / 4)
     R = np.array([[cp, -sp], [sp, cp]])
+    # The matching indexes the points with finite death only: bottleneck() and
+    # wasserstein() drop the others before matching, wherever they sit.
+    if dgm1.size > 0:
+        dgm1 = dgm1[np.isfinite(dgm1[:, 1])]
+    if dgm2.size > 0:
+        dgm2 = dgm2[np.isfinite(dgm2[:, 1])]
     if dgm1.size == 0:
         dgm1 = np.array([[0, 0]])
     if dgm2.size == 0:
